@@ -219,6 +219,8 @@ def parse_shape(shape):
 
 
 SHAPES = {
+    "x?": "x:N:1",
+    "x?y?": "x:N:1 y:N:1",
     "x": "x:N:0",
     "xy": "x:N:0 y:N:0",
     "xy?": "x:N:0 y:N:1",
